@@ -1017,4 +1017,7 @@ def run(facts, tier, ctx):
     # encoder's construction sites must agree or the emitted frame does not decode to the input (C02 AGREE)
     from . import c02
     out += c02.predictor_order(facts, c02.oracle())
+    # a parsed stream re-serialises to its bytes only if the is-last flags of the metadata chain are what the writer emits:
+    # nothing may install metadata blocks behind add_metadata_block (C02 LASTFLAG)
+    out += c02.last_flag(facts)
     return out
